@@ -282,6 +282,14 @@ theorem jac_is_gradient_default {n : Type} [Fintype n] [DecidableEq n] (sbs : Li
     rw [jacValues_eq, List.getD_eq_getElem?_getD, List.getElem?_map, List.getElem?_eq_getElem hj']
     simpa [List.getD_eq_getElem?_getD, List.getElem?_eq_getElem hj] using this
 
+-- non-vacuity: 3 free parameters, vector of length 3, default indices
+example : ([0.1, 0.2, 0.3] : List ℝ).length =
+      freeParams (([SBlock.ham pauliX true, SBlock.pham [pauliX, pauliZ] pauliY false] :
+        List (SBlock (Fin 2))).map SBlock.toBlock) 1 ∧
+    computeJac false (([SBlock.ham pauliX true, SBlock.pham [pauliX, pauliZ] pauliY false] :
+        List (SBlock (Fin 2))).map SBlock.toBlock) 1 ([0.1, 0.2, 0.3] : List ℝ).length none =
+      .ok [⟨0, 0, 0, 1, 0⟩, ⟨1, 1, 1, 2, 0⟩, ⟨1, 1, 1, 2, 1⟩] := by decide
+
 /-! ## The cost configuration -/
 
 /-- **`compute_jac` never looks at `cost_method` / `cost_func`**: with an observable set it returns the
